@@ -3,6 +3,7 @@ import Mutagen.Proofs.ExecCycle
 import Mutagen.Proofs.Phantom
 import Mutagen.Model.SyncCycle
 import Mutagen.Proofs.ExecHistory
+import Mutagen.Proofs.ExecHistoryValid
 /-!
 # C18 — executability survives synchronization through an endpoint that cannot store it
 
@@ -11,7 +12,7 @@ Property theorems only (helper lemmas live in `Mutagen.Proofs.Executability`).
 namespace Mutagen.Properties.C18
 open Mutagen.Model Mutagen.Proofs Mutagen.Proofs.Executability Mutagen.Proofs.ExecCycle
   Mutagen.Proofs.ReconcileLeaf Mutagen.Proofs.ReconcileShape Mutagen.Proofs.Phantom
-  Mutagen.Proofs.ExecHistory Mutagen.Model.ExecHistory
+  Mutagen.Proofs.ExecHistory Mutagen.Model.ExecHistory Mutagen.Proofs.ExecHistoryValid
 
 /-- `propagate_rules`: for every ancestor `A`, source `S`, target `T` and every
 path `q`, the scalar fields `PropagateExecutability(A, S, T)` records at `q`
@@ -25,7 +26,7 @@ exactly the paths of `T`, and nothing but those executable bits changes. -/
 theorem propagate_rules (A S T : Option Entry) (q : Path) :
     propsAt (propagateExecutability A S T) q = (propsAt T q).map (ruleAt A S T q) := by
   cases T with
-  | none => simp [propagateExecutability, propsAt, getPath_none]
+  | none => simp [propagateExecutability, propsAt, Mutagen.Proofs.Executability.getPath_none]
   | some t => exact propsAt_propagate q t A S
 
 /-- The rules only ever copy a bit from the source or the ancestor at the same
@@ -381,7 +382,7 @@ reconcile, apply) from a valid state in the situation of the property leaves
 P's file at `q` a file with the same executable bit. -/
 theorem cycle_keeps_bit (mode : Mode) (nAlpha docker : Bool) (q : Path) (s : State) (b : Bool)
     (hv : ValidState s) (hok : CycleOK mode nAlpha docker q s) (hb : FileBit s.P q b) :
-    FileBit (cycleStep mode nAlpha docker s).P q b := by
+    FileBit (ExecHistory.cycleStep mode nAlpha docker s).P q b := by
   obtain ⟨pP, hPq, hkP, hbP⟩ := hb
   obtain ⟨pN, hNq, hkN⟩ := hok.fileN
   obtain ⟨h1, h2⟩ := hok.outside pP pN hPq hNq
@@ -393,7 +394,7 @@ theorem cycle_keeps_bit (mode : Mode) (nAlpha docker : Bool) (q : Path) (s : Sta
     simp only [Bool.false_eq_true, if_false] at hcP hcN
     cases nAlpha with
     | true =>
-      simp only [cycleStep, planOf, reified, Bool.false_eq_true, if_false, if_true]
+      simp only [ExecHistory.cycleStep, planOf, reified, Bool.false_eq_true, if_false, if_true]
       cases ha : apply s.P (Reconcile s.anc (propagateExecutability s.anc s.P s.N) s.P mode).beta with
       | error _ => exact ⟨pP, hPq, hkP, hbP⟩
       | ok P' =>
@@ -401,7 +402,7 @@ theorem cycle_keeps_bit (mode : Mode) (nAlpha docker : Bool) (q : Path) (s : Sta
           (by simpa using ha)
         exact ⟨p', h', hk', hx'.trans hbP⟩
     | false =>
-      simp only [cycleStep, planOf, reified, Bool.false_eq_true, if_false]
+      simp only [ExecHistory.cycleStep, planOf, reified, Bool.false_eq_true, if_false]
       cases ha : apply s.P (Reconcile s.anc s.P (propagateExecutability s.anc s.P s.N) mode).alpha with
       | error _ => exact ⟨pP, hPq, hkP, hbP⟩
       | ok P' =>
@@ -428,24 +429,24 @@ theorem cycle_keeps_bit (mode : Mode) (nAlpha docker : Bool) (q : Path) (s : Sta
         simp [isFileAt, hg, isKind, Entry.kind, hNq, hkN]
     cases nAlpha with
     | true =>
-      simp only [cycleStep, planOf, reified, if_true]
+      simp only [ExecHistory.cycleStep, planOf, reified, if_true]
       cases ha : apply (reify s.anc s.N s.P).beta (Reconcile s.anc
           (propagateExecutability s.anc (reify s.anc s.N s.P).beta (reify s.anc s.N s.P).alpha)
           (reify s.anc s.N s.P).beta mode).beta with
       | error _ =>
         obtain ⟨_, _, _, _, hgp⟩ := reify_chain q s.anc s.N s.P hcN hcP hfN hfP
-        exact ⟨pP, by simp only [applied, propsAt, hgp]; exact hPq, hkP, hbP⟩
+        exact ⟨pP, by simp only [ExecHistory.applied, propsAt, hgp]; exact hPq, hkP, hbP⟩
       | ok P' =>
         obtain ⟨p', h', hk', hx'⟩ := exec_preserved_docker mode s.anc s.P s.N true q pP pN hA hP hN hcP hcN hPq hkP
           hNq hkN h1 h2 _ _ rfl P' (by simpa using ha)
         exact ⟨p', h', hk', hx'.trans hbP⟩
     | false =>
-      simp only [cycleStep, planOf, reified, if_true, Bool.false_eq_true, if_false]
+      simp only [ExecHistory.cycleStep, planOf, reified, if_true, Bool.false_eq_true, if_false]
       cases ha : apply (reify s.anc s.P s.N).alpha (Reconcile s.anc (reify s.anc s.P s.N).alpha
           (propagateExecutability s.anc (reify s.anc s.P s.N).alpha (reify s.anc s.P s.N).beta) mode).alpha with
       | error _ =>
         obtain ⟨_, _, _, hgp, _⟩ := reify_chain q s.anc s.P s.N hcP hcN hfP hfN
-        exact ⟨pP, by simp only [applied, propsAt, hgp]; exact hPq, hkP, hbP⟩
+        exact ⟨pP, by simp only [ExecHistory.applied, propsAt, hgp]; exact hPq, hkP, hbP⟩
       | ok P' =>
         obtain ⟨p', h', hk', hx'⟩ := exec_preserved_docker mode s.anc s.P s.N false q pP pN hA hP hN hcP hcN hPq hkP
           hNq hkN h1 h2 _ _ rfl P' (by simpa using ha)
@@ -522,6 +523,34 @@ theorem exec_history_of_cycles_preserve_valid (mode : Mode) (nAlpha docker : Boo
   exec_history mode nAlpha docker q steps s b hb fun pre hpre =>
     ⟨run_valid mode nAlpha docker hc steps s hs hsteps pre ((List.prefix_append pre [Step.cycle]).trans hpre),
       hok pre hpre⟩
+
+/-- `cycles_preserve_valid`: the hypothesis `CyclesPreserveValid` is a theorem
+for the invariant `HInv` (valid synchronizable ancestor; valid endpoint contents
+that are genuine maps; phantom-free with Mutagen-style ignores): a fully applied
+cycle — reify, propagate, reconcile, apply both plans exactly (N's plan to the
+un-propagated content that is on N's disk), ancestor update with ideal results
+— maps `HInv` states to `HInv` states, in every mode and orientation. -/
+theorem cycles_preserve_valid (mode : Mode) (nAlpha docker : Bool) (s : State) (h : HInv docker s) :
+    HInv docker (ExecHistory.cycleStep mode nAlpha docker s) :=
+  cycle_inv mode nAlpha docker s h
+
+/-- `exec_history_unconditional`: the multi-cycle statement without any
+assumption about validity preservation. From a state satisfying `HInv`, over
+every history of valid user steps (`StepOK`: N replaced by valid content, new
+file content with a non-empty digest, any chmod) and fully applied cycles, in
+every mode and orientation, with or without Docker-style ignores: if at every
+moment a cycle runs the file at `q` exists on both sides below directories
+(`CycleOK`, outside the two documented deviations), then P's file at `q` ends
+with exactly the bit the user last set on P. No cycle ever changes it, however
+often its content was edited on N in between. -/
+theorem exec_history_unconditional (mode : Mode) (nAlpha docker : Bool) (q : Path) (steps : List Step)
+    (s : State) (b : Bool) (hs : HInv docker s) (hsteps : ∀ x ∈ steps, StepOK docker x)
+    (hb : FileBit s.P q b)
+    (hok : ∀ pre, pre ++ [Step.cycle] <+: steps → CycleOK mode nAlpha docker q (run mode nAlpha docker s pre)) :
+    FileBit (run mode nAlpha docker s steps).P q (userBit q b steps) :=
+  exec_history mode nAlpha docker q steps s b hb fun pre hpre =>
+    ⟨inv_validState (run_inv mode nAlpha docker steps s hs hsteps pre
+        ((List.prefix_append pre [Step.cycle]).trans hpre)), hok pre hpre⟩
 
 /-- The user's bit is a function of the chmods on P only: edits on N, edits on
 P and cycles do not enter it. -/
